@@ -641,6 +641,21 @@ def run_cli_case(ctx, wd, idx, sc, reads, vt, opts):
     return d, in_path, out_path, trace, args, rc, se
 
 
+_PADS = {}
+
+
+def writer_gets_every_family_member():
+    """The trace hook records the solver result before run_whatshap assembles the writer's inputs. As the code stands a
+    family member for which the algorithm returned no super-reads (--algorithm heuristic with nothing to phase) is
+    simply not passed to the writer; a candidate repair passes it with an empty ReadSet. Which of the two the
+    implementation under test does is read off its source (marker: `if sample not in superreads`)."""
+    if "v" not in _PADS:
+        import inspect
+        import whatshap.cli.phase as ph
+        _PADS["v"] = "if sample not in superreads" in inspect.getsource(ph.run_whatshap)
+    return _PADS["v"]
+
+
 def plan_from_trace(fin, trace_path, opts):
     """the writer's inputs per chromosome run, as run_whatshap assembles them (one trace line per
     (chromosome, family), in processing order)."""
@@ -662,6 +677,9 @@ def plan_from_trace(fin, trace_path, opts):
                     assert len(srs) == 2 and [x[0] for x in srs[0]] == [x[0] for x in srs[1]]
                     sr = [(int(a[0]), [int(a[1]), int(b[1])]) for a, b in zip(srs[0], srs[1])]
                     targets[s] = (sr, comp)
+                if writer_gets_every_family_member():
+                    for s in ln["family"]:
+                        targets.setdefault(s, ([], comp))
         plan.append((c, targets))
     return plan
 
